@@ -600,11 +600,18 @@ func simYield() {
 			// and a spin towards a deadline minutes away costs hours of CPU.
 			// Instead the goroutine remembers until when it was charged, and
 			// deadline oracles excuse exactly that.)
+			if now > 1<<62 {
+				// the bubble's clock is about to overflow (decades-long jumps
+				// piled up): a sleep would arm a timer in the past
+				d = 0
+			}
 			gp.simChargeEnd = now + d
 			simsched.spinEnd = now + d
-			simsched.spinSleepers++
-			timeSleep(d)
-			simsched.spinSleepers--
+			if d > 0 {
+				simsched.spinSleepers++
+				timeSleep(d)
+				simsched.spinSleepers--
+			}
 		}
 	}
 	var d uint32
